@@ -269,3 +269,222 @@ Proof.
   apply Permutation_map with (f := fun p => nth p sh (0%nat, 0)) in Hp.
   rewrite Hp. rewrite map_nth_seq_id. reflexivity.
 Qed.
+
+(* ---------- expansion ---------- *)
+
+(* the extra dimensions are sorted by insertion position, all between lo and hi *)
+Fixpoint ex_sorted (lo hi : nat) (extra : list (nat * name)) : Prop :=
+  match extra with
+  | [] => True
+  | e :: r => (lo <= fst e <= hi)%nat /\ ex_sorted (fst e) hi r
+  end.
+
+Lemma ex_sorted_weaken lo lo' hi extra : (lo' <= lo)%nat -> ex_sorted lo hi extra -> ex_sorted lo' hi extra.
+Proof. destruct extra as [|e r]; cbn; [auto|]. intros H [A B]. split; [lia|exact B]. Qed.
+
+Lemma ex_sorted_S i hi j n r : ex_sorted i hi ((j, n) :: r) -> j <> i -> ex_sorted (S i) hi ((j, n) :: r).
+Proof. cbn. intros [A B] H. split; [lia|exact B]. Qed.
+
+Definition extra_dims (extra : list (nat * name)) : shape := map (fun e => (snd e, 1)) extra.
+
+Lemma expand_step : forall fuel (sh : shape) i extra idx hi,
+  ex_sorted i hi extra -> (i + length sh = hi)%nat -> fuel = (length sh + length extra)%nat ->
+  length idx = fuel ->
+  Permutation (expand_shape fuel sh i extra) (sh ++ extra_dims extra) /\
+  match expand_idx idx i extra with
+  | Some idx' => length idx' = length sh /\
+                 (in_range idx' (lens_of sh) <-> in_range idx (lens_of (expand_shape fuel sh i extra)))
+  | None => ~ in_range idx (lens_of (expand_shape fuel sh i extra))
+  end.
+Proof.
+  induction fuel as [|f IH]; intros sh i extra idx hi Hs Hhi Hf Hl.
+  - destruct sh, extra, idx; cbn [length] in *; try lia. cbn. split; [constructor|tauto].
+  - destruct idx as [|index idx]; cbn [length] in Hl; try lia.
+    destruct extra as [|[j n] ex'].
+    + destruct sh as [|d sh']; cbn [length] in *; try lia.
+      destruct (IH sh' (S i) [] idx hi I ltac:(lia) ltac:(cbn; lia) ltac:(lia)) as [P H].
+      cbn [expand_shape expand_idx]. split.
+      * cbn [app]. constructor. exact P.
+      * destruct (expand_idx idx (S i) []) as [idx'|]; cbn [option_map].
+        -- destruct H as [L H]. split; [cbn; lia|]. cbn [lens_of map in_range].
+           change (map snd sh') with (lens_of sh').
+           change (map snd (expand_shape f sh' (S i) [])) with (lens_of (expand_shape f sh' (S i) [])).
+           rewrite H. tauto.
+        -- cbn [lens_of map in_range]. intros [_ B]. apply H. exact B.
+    + cbn [expand_shape expand_idx]. destruct (Nat.eqb_spec j i) as [E|E].
+      * subst j. destruct Hs as [Hb Hs]. cbn [fst] in *.
+        destruct (IH sh i ex' idx hi Hs Hhi ltac:(cbn [length] in Hf; lia) ltac:(lia)) as [P H]. split.
+        -- cbn [extra_dims map snd]. apply Permutation_cons_app. exact P.
+        -- cbn [lens_of map snd in_range].
+           change (map snd (expand_shape f sh i ex')) with (lens_of (expand_shape f sh i ex')).
+           destruct (N.eqb_spec index 0) as [Z|Z].
+           ++ subst index. destruct (expand_idx idx i ex') as [idx'|].
+              ** destruct H as [L H]. split; [exact L|]. rewrite H. split; [intros B; split; [lia|exact B]|tauto].
+              ** intros [_ B]. apply H. exact B.
+           ++ intros [A _]. lia.
+      * destruct sh as [|d sh']; cbn [length] in *.
+        { destruct Hs as [Hb _]. cbn [fst] in Hb. lia. }
+        destruct (IH sh' (S i) ((j, n) :: ex') idx hi (ex_sorted_S _ _ _ _ _ Hs E) ltac:(lia)
+                     ltac:(cbn [length]; lia) ltac:(lia)) as [P H]. split.
+        -- cbn [app]. constructor. exact P.
+        -- destruct (expand_idx idx (S i) ((j, n) :: ex')) as [idx'|]; cbn [option_map].
+           ++ destruct H as [L H]. split; [cbn; lia|]. cbn [lens_of map in_range].
+              change (map snd sh') with (lens_of sh').
+              change (map snd (expand_shape f sh' (S i) ((j, n) :: ex')))
+                with (lens_of (expand_shape f sh' (S i) ((j, n) :: ex'))).
+              rewrite H. tauto.
+           ++ cbn [lens_of map in_range]. intros [_ B]. apply H. exact B.
+Qed.
+
+(* the stable insertion sort *)
+Lemma insert_sorted_perm x l : Permutation (insert_sorted x l) (x :: l).
+Proof.
+  induction l as [|y r IH]; cbn [insert_sorted]; [reflexivity|].
+  destruct (fst x <=? fst y)%nat; [reflexivity|]. rewrite IH. apply perm_swap.
+Qed.
+Lemma stable_sort_perm l : Permutation (stable_sort l) l.
+Proof.
+  induction l as [|x l IH]; cbn [stable_sort fold_right]; [reflexivity|].
+  rewrite insert_sorted_perm. constructor. exact IH.
+Qed.
+Lemma insert_sorted_sorted x : forall l lo hi, (lo <= fst x <= hi)%nat ->
+  ex_sorted lo hi l -> ex_sorted lo hi (insert_sorted x l).
+Proof.
+  induction l as [|y r IH]; intros lo hi Hx Hs; cbn [insert_sorted].
+  - cbn. auto.
+  - destruct Hs as [Hy Hs]. destruct (Nat.leb_spec (fst x) (fst y)).
+    + cbn [ex_sorted]. split; [exact Hx|]. split; [lia|exact Hs].
+    + cbn [ex_sorted]. split; [exact Hy|]. apply IH; [lia|exact Hs].
+Qed.
+Lemma stable_sort_sorted hi l : Forall (fun e => (fst e <= hi)%nat) l -> ex_sorted 0 hi (stable_sort l).
+Proof.
+  induction 1 as [|x l Hx _ IH]; cbn [stable_sort fold_right]; [exact I|].
+  apply insert_sorted_sorted; [lia|exact IH].
+Qed.
+
+(* ---------- stack ---------- *)
+
+Lemma stack_passed : forall (sh : shape) d along x idx, (along < d)%nat ->
+  stack_shape (length sh) d sh along x = sh /\ remove_at d along idx = idx.
+Proof.
+  intros sh d along x idx H. split.
+  - revert d H; induction sh as [|e sh IH]; intros d H; cbn [length stack_shape]; [reflexivity|].
+    destruct (Nat.eqb_spec d along); [lia|]. f_equal. apply IH. lia.
+  - revert d H; induction idx as [|i idx IH]; intros d H; cbn [remove_at]; [reflexivity|].
+    destruct (Nat.eqb_spec d along); [lia|]. f_equal. apply IH. lia.
+Qed.
+
+Lemma stack_shape_S f d (sh : shape) along x :
+  stack_shape (S f) d sh along x =
+  if Nat.eqb d along then x :: stack_shape f (S d) sh along x
+  else match sh with e :: sh' => e :: stack_shape f (S d) sh' along x | [] => [] end.
+Proof. reflexivity. Qed.
+
+Lemma stack_step : forall (sh : shape) d along x idx,
+  (d <= along <= d + length sh)%nat -> length idx = S (length sh) ->
+  Permutation (stack_shape (S (length sh)) d sh along x) (x :: sh) /\
+  length (remove_at d along idx) = length sh /\
+  (in_range idx (lens_of (stack_shape (S (length sh)) d sh along x)) <->
+   nth (along - d) idx 0 < snd x /\ in_range (remove_at d along idx) (lens_of sh)).
+Proof.
+  induction sh as [|e sh IH]; intros d along x idx Hd Hl; destruct idx as [|i idx]; cbn [length] in *; try lia.
+  - assert (along = d) by lia. subst along. destruct idx; cbn [length] in Hl; try lia.
+    cbn [stack_shape remove_at]. rewrite Nat.eqb_refl. cbn [stack_shape remove_at lens_of map in_range length].
+    rewrite Nat.sub_diag. cbn [nth]. split; [reflexivity|]. split; [reflexivity|tauto].
+  - rewrite (stack_shape_S (S (length sh))). cbn [remove_at]. destruct (Nat.eqb_spec d along) as [E|E].
+    + subst along. destruct (stack_passed (e :: sh) (S d) d x idx ltac:(lia)) as [A B].
+      cbn [length] in A. rewrite A, B. rewrite Nat.sub_diag. cbn [nth lens_of map in_range].
+      split; [reflexivity|]. split; [cbn [length]; lia|tauto].
+    + destruct (IH (S d) along x idx ltac:(lia) ltac:(lia)) as [P [L H]].
+      split; [rewrite P; apply perm_swap|]. split; [cbn [length]; lia|].
+      cbn [lens_of map in_range].
+      change (map snd (stack_shape (S (length sh)) (S d) sh along x))
+        with (lens_of (stack_shape (S (length sh)) (S d) sh along x)).
+      change (map snd sh) with (lens_of sh). rewrite H.
+      replace (along - d)%nat with (S (along - S d)) by lia. cbn [nth]. tauto.
+Qed.
+
+(* selecting the k-th source *)
+Fixpoint pickN {A B} (g : A -> option B) (l : list A) (k : N) : option B :=
+  match l with
+  | [] => None
+  | c0 :: r => if k =? 0 then g c0 else pickN g r (k - 1)
+  end.
+Fixpoint picknat {A B} (g : A -> option B) (l : list A) (k : nat) : option B :=
+  match l with
+  | [] => None
+  | c0 :: r => match k with O => g c0 | S k' => picknat g r k' end
+  end.
+
+Lemma pickN_spec {A B} (g : A -> option B) l : forall k,
+  pickN g l k = match nth_error l (N.to_nat k) with Some c => g c | None => None end.
+Proof.
+  induction l as [|c l IH]; intros k; cbn [pickN].
+  - destruct (N.to_nat k); reflexivity.
+  - destruct (N.eqb_spec k 0) as [->|Hk]; [reflexivity|].
+    rewrite IH. replace (N.to_nat k) with (S (N.to_nat (k - 1))) by lia. reflexivity.
+Qed.
+Lemma picknat_spec {A B} (g : A -> option B) l : forall k,
+  picknat g l k = match nth_error l k with Some c => g c | None => None end.
+Proof. induction l as [|c l IH]; intros [|k]; cbn [picknat nth_error]; auto. Qed.
+
+(* ---------- chain ---------- *)
+
+Lemma chain_find_spec lens : forall i k0,
+  match chain_find lens i k0 with
+  | Some (k, i') => (k0 <= k < k0 + length lens)%nat /\ i' < nth (k - k0) lens 0 /\
+                    i = sum (firstn (k - k0) lens) + i'
+  | None => sum lens <= i
+  end.
+Proof.
+  induction lens as [|l lens IH]; intros i k0; cbn [chain_find].
+  - cbn. lia.
+  - destruct (N.ltb_spec i l) as [H|H].
+    + cbn [length]. rewrite Nat.sub_diag. cbn [nth firstn sum fold_right]. lia.
+    + specialize (IH (i - l) (S k0)). destruct (chain_find lens (i - l) (S k0)) as [[k i']|].
+      * destruct IH as [A [B C]]. cbn [length]. split; [lia|].
+        replace (k - k0)%nat with (S (k - S k0)) by lia. cbn [nth firstn sum fold_right].
+        split; [exact B|]. unfold sum in C. lia.
+      * cbn [sum fold_right]. unfold sum in IH. lia.
+Qed.
+
+Lemma sum_nth_le lens k : nth k lens 0 <= sum lens.
+Proof.
+  revert k; induction lens as [|l lens IH]; intros [|k]; cbn [nth sum fold_right]; try lia.
+  specialize (IH k). unfold sum in IH. lia.
+Qed.
+Lemma sum_firstn_lt lens k : (k < length lens)%nat -> sum (firstn k lens) + nth k lens 0 <= sum lens.
+Proof.
+  revert k; induction lens as [|l lens IH]; intros [|k] H; cbn [length nth firstn sum fold_right] in *; try lia.
+  specialize (IH k ltac:(lia)). unfold sum in IH. lia.
+Qed.
+
+(* validate_shapes_similar *)
+Lemma similar_from_spec : forall (s s0 : shape) d along, similar_from d along s s0 = true ->
+  length s = length s0 /\ names_of s = names_of s0 /\
+  forall k, (d + k)%nat <> along -> nth k (lens_of s) 0 = nth k (lens_of s0) 0.
+Proof.
+  induction s as [|a s IH]; intros [|b s0] d along H; cbn [similar_from] in H; try discriminate.
+  - repeat split; auto.
+  - apply andb_prop in H as [H1 H2]. destruct (IH s0 (S d) along H2) as [L [Nm Hk]].
+    assert (Hn : fst a = fst b).
+    { destruct (Nat.eqb d along); [apply Nat.eqb_eq; exact H1|].
+      apply andb_prop in H1 as [H1 _]. apply Nat.eqb_eq; exact H1. }
+    repeat split.
+    + cbn [length]; lia.
+    + cbn [names_of map]. f_equal; [exact Hn|exact Nm].
+    + intros [|k] Hne; cbn [lens_of map nth].
+      * destruct (Nat.eqb_spec d along); [lia|]. apply andb_prop in H1 as [_ H1].
+        apply N.eqb_eq. exact H1.
+      * apply Hk. lia.
+Qed.
+
+Lemma shape_eqb_eq (a b : shape) : shape_eqb a b = true -> a = b.
+Proof.
+  unfold shape_eqb. intros H. apply andb_prop in H as [HL HF]. apply Nat.eqb_eq in HL.
+  revert b HL HF; induction a as [|[n l] a IH]; intros [|[n' l'] b] HL HF; cbn [length] in HL; try lia.
+  - reflexivity.
+  - cbn [combine forallb fst snd] in HF. apply andb_prop in HF as [H1 H2].
+    apply andb_prop in H1 as [Hn Hl]. apply Nat.eqb_eq in Hn. apply N.eqb_eq in Hl. subst.
+    f_equal. apply IH; [lia|exact H2].
+Qed.
